@@ -9,27 +9,46 @@ open Nq Nq.Pop3
 
 /-! ### fsFind / fsUnlink / fsRename -/
 
+theorem find_cons (f : File) (fs : FS) (p : Bytes) :
+    fsFind (f :: fs) p = if f.path = p then some f else fsFind fs p := by
+  simp only [fsFind, List.find?_cons]
+  by_cases h : f.path = p
+  · simp [h]
+  · have hb : (f.path == p) = false := beq_eq_false_iff_ne.mpr h
+    rw [hb]; simp [h]
+
+theorem unlink_cons (f : File) (fs : FS) (q : Bytes) :
+    fsUnlink (f :: fs) q = if f.path = q then fsUnlink fs q else f :: fsUnlink fs q := by
+  simp only [fsUnlink, List.filter_cons]
+  by_cases h : f.path = q
+  · simp [h]
+  · have hb : (f.path != q) = true := bne_iff_ne.mpr h
+    rw [hb]; simp [h]
+
 theorem find_unlink_other (fs : FS) (p q : Bytes) (h : p ≠ q) :
     fsFind (fsUnlink fs q) p = fsFind fs p := by
   induction fs with
   | nil => rfl
   | cons f fs ih =>
-    unfold fsFind fsUnlink at *
+    rw [unlink_cons, find_cons]
     by_cases h1 : f.path = q
     · have : f.path ≠ p := fun hh => h (hh.symm.trans h1)
-      simp [List.filter, h1, List.find?, this, ih]
-    · by_cases h2 : f.path = p
-      · simp [List.filter, h1, List.find?, h2]
-      · simp [List.filter, h1, List.find?, h2, ih]
+      simp only [h1, if_true]
+      rw [ih]
+      simp [show q ≠ p from fun hh => h hh.symm]
+    · simp only [h1, if_false]
+      rw [find_cons, ih]
 
 theorem find_unlink_self (fs : FS) (p : Bytes) : fsFind (fsUnlink fs p) p = none := by
   induction fs with
   | nil => rfl
   | cons f fs ih =>
-    unfold fsFind fsUnlink at *
+    rw [unlink_cons]
     by_cases h1 : f.path = p
-    · simp [List.filter, h1, ih]
-    · simp [List.filter, h1, List.find?, ih]
+    · simp only [h1, if_true]; exact ih
+    · simp only [h1, if_false]
+      rw [find_cons]
+      simp only [h1, if_false]; exact ih
 
 theorem find_unlink_absent (fs : FS) (p q : Bytes) (h : fsFind fs p = none) :
     fsFind (fsUnlink fs q) p = none := by
@@ -42,16 +61,12 @@ theorem find_map_rename (fs : FS) (a b p : Bytes) (f : File) (ha : p ≠ a) (hb 
   induction fs with
   | nil => rfl
   | cons g fs ih =>
-    unfold fsFind at *
+    rw [List.map_cons, find_cons, find_cons, ih]
     by_cases h1 : g.path = a
     · have h2 : g.path ≠ p := fun hh => ha (hh.symm.trans h1)
       have h3 : b ≠ p := fun hh => hb hh.symm
-      simp [List.find?, h1, h2, h3]
-      simpa [h1] using ih
-    · by_cases h2 : g.path = p
-      · simp [List.find?, h1, h2]
-      · simp [List.find?, h1, h2]
-        simpa using ih
+      simp [h1, h3, show a ≠ p from fun hh => ha hh.symm]
+    · simp [h1]
 
 theorem find_rename_other (fs : FS) (a b p : Bytes) (ha : p ≠ a) (hb : p ≠ b) :
     fsFind (fsRename fs a b) p = fsFind fs p := by
@@ -61,7 +76,8 @@ theorem find_rename_other (fs : FS) (a b p : Bytes) (ha : p ≠ a) (hb : p ≠ b
   | some f =>
     by_cases hab : a = b
     · simp [hab]
-    · simp only [beq_iff_eq, hab, if_false]
+    · show fsFind (if (a == b) = true then fs else _) p = _
+      rw [if_neg (by simpa using hab)]
       rw [find_map_rename _ a b p f ha hb, find_unlink_other fs p b hb]
 
 theorem find_rename_absent (fs : FS) (a b p : Bytes) (h : fsFind fs p = none) (hb : p ≠ b) :
@@ -171,6 +187,106 @@ theorem unmark_ident (msgs : List Msg) :
     (msgs.map (fun m => { m with del := false })).map ident = msgs.map ident := by
   induction msgs with
   | nil => rfl
-  | cons m rest ih => simp [ident] at *; exact ih
+  | cons m rest ih => simp_all [ident]
+
+/-! ### helpers of the property theorems -/
+
+/-- One command never changes which file (and which announced size) a message number denotes,
+nor how many messages there are. -/
+theorem exec_ident (s : Sess) (verb arg : Bytes) :
+    (exec s verb arg).1.msgs.map ident = s.msgs.map ident := by
+  unfold exec
+  repeat' split
+  all_goals simp [setDel_ident, unmark_ident, ident]
+
+theorem feedByte_ident (r : Run) (c : Byte) : (feedByte r c).s.msgs.map ident = r.s.msgs.map ident := by
+  unfold feedByte
+  split
+  · rfl
+  · split
+    · exact exec_ident _ _ _
+    · rfl
+
+theorem feedBytes_ident (b : Bytes) : ∀ r : Run, (b.foldl feedByte r).s.msgs.map ident = r.s.msgs.map ident := by
+  induction b with
+  | nil => intro r; rfl
+  | cons c b ih => intro r; rw [List.foldl_cons, ih, feedByte_ident]
+
+/-- **Nothing is unlinked or renamed before QUIT**, and only QUIT ends the session. -/
+theorem exec_nonquit (s : Sess) (verb arg : Bytes) (h : verbIs vQuit verb = false) :
+    (exec s verb arg).1.fs = s.fs ∧ (exec s verb arg).2.2 = none := by
+  unfold exec
+  simp only [h]
+  repeat' split
+  all_goals simp_all
+
+/-- the maildir if only other processes touched it -/
+def vanished : List Ev → FS → FS
+  | [], fs => fs
+  | .data _ :: rest, fs => vanished rest fs
+  | .vanish p :: rest, fs => vanished rest (fsUnlink fs p)
+
+theorem feedByte_exit_some (r : Run) (c : Byte) (x : Nat) (h : r.exit = some x) : feedByte r c = r := by
+  unfold feedByte; simp [h]
+
+theorem feedBytes_exit_some (b : Bytes) : ∀ (r : Run) (x : Nat), r.exit = some x → b.foldl feedByte r = r := by
+  induction b with
+  | nil => intro r x _; rfl
+  | cons c b ih => intro r x h; rw [List.foldl_cons, feedByte_exit_some r c x h]; exact ih r x h
+
+theorem feedEv_exit_some (e : Ev) (r : Run) (x : Nat) (h : r.exit = some x) : feedEv r e = r := by
+  cases e with
+  | data b => exact feedBytes_exit_some b r x h
+  | vanish p => rw [feedEv_vanish]; simp [h]
+
+theorem feedEvs_exit_some (evs : List Ev) : ∀ (r : Run) (x : Nat), r.exit = some x → evs.foldl feedEv r = r := by
+  induction evs with
+  | nil => intro r x _; rfl
+  | cons e evs ih => intro r x h; rw [List.foldl_cons, feedEv_exit_some e r x h]; exact ih r x h
+
+theorem feedByte_fs (r : Run) (c : Byte) (h : (feedByte r c).exit = none) : (feedByte r c).s.fs = r.s.fs := by
+  unfold feedByte at h ⊢
+  split
+  · rfl
+  · split
+    · rename_i hc
+      by_cases hq : verbIs vQuit (parseLine r.cmd.reverse).1 = true
+      · -- QUIT always exits
+        exfalso
+        simp [hc, exec, hq] at h
+        split at h <;> simp_all
+      · exact (exec_nonquit _ _ _ (by simpa using hq)).1
+    · rfl
+
+theorem feedBytes_fs (b : Bytes) : ∀ r : Run, (b.foldl feedByte r).exit = none → (b.foldl feedByte r).s.fs = r.s.fs := by
+  induction b with
+  | nil => intro r _; rfl
+  | cons c b ih =>
+    intro r h
+    rw [List.foldl_cons] at h ⊢
+    have h1 : (feedByte r c).exit = none := by
+      cases hx : (feedByte r c).exit with
+      | none => rfl
+      | some x => rw [feedBytes_exit_some b _ x hx] at h; rw [hx] at h; exact absurd h (by simp)
+    rw [ih _ h, feedByte_fs r c h1]
+
+theorem errLine_take (t : String) : (errLine t).take 5 = errSp := by simp [errLine, errSp]
+
+theorem takeWhile_stop {α} (p : α → Bool) (l r : List α) (x : α) (hl : ∀ a ∈ l, p a = true) (hx : p x = false) :
+    (l ++ x :: r).takeWhile p = l := by
+  induction l with
+  | nil => simp [List.takeWhile_cons, hx]
+  | cons c n ih =>
+    have hc : p c = true := hl c (by simp)
+    simp [List.takeWhile_cons, hc, ih (fun a ha => hl a (by simp [ha]))]
+
+theorem dropWhile_stop {α} (p : α → Bool) (l r : List α) (x : α) (hl : ∀ a ∈ l, p a = true) (hx : p x = false) :
+    (l ++ x :: r).dropWhile p = x :: r := by
+  induction l with
+  | nil => simp [List.dropWhile_cons, hx]
+  | cons c n ih =>
+    have hc : p c = true := hl c (by simp)
+    simp [List.dropWhile_cons, hc, ih (fun a ha => hl a (by simp [ha]))]
+
 
 end Nq.Lemmas.Pop3
